@@ -1,6 +1,7 @@
 import HeraProofs.Props.C05
 import HeraProofs.Props.C05b
 import HeraProofs.Props.C05c
+import HeraProofs.Props.C05d
 open Hera
 #print axioms Enc.subst_of_match
 #print axioms Enc.match_of_subst
@@ -19,3 +20,7 @@ open Hera
 #print axioms C05_assemble_is_table
 #print axioms C05_assemble_injective
 #print axioms C05_decode_assemble
+#print axioms matchGo_bound
+#print axioms valid_of_infield
+#print axioms matched_infield
+#print axioms C05_disassemble_is_table
